@@ -31,6 +31,7 @@ FIXED = [
  ("C16", "recovery_blob/output-invalid", "fix: recovery and validation tools reject", "a flipped meta byte that still decodes, but to another length (e.g. the entry count 1 -> 0), is accepted by the tools' record reader: recovery_blob / migrate_blob write the record back with the re-serialized (shorter) meta under the old meta_size - the output blob does not parse; validate_blob accepted the blob (found by the libFuzzer damage campaign of the thorough tier)"),
  ("C12", "sync/unsynced-above-limit-at-idle", "fix: close performs the index dumps", "a deletion marker appended to a closed blob is synced only by the deferred re-dump; close() dropped a pending re-dump, so the marker's bytes stayed un-synced after close() and - when that blob became the active one at the next start - above the limit at idle (found by the thorough tier, 1 case in 10 000)"),
  ("C12", "sync/unsynced-above-limit-at-idle", "fix: restoring the active blob requests", "close the active blob, delete into it (marker appended to the closed blob), restore it: the active blob carries un-synced bytes above the limit and nothing requests a sync (found by a seed sweep of the quick tier)"),
+ ("C14", "close/err", "fix: an index loaded back from disk switches", "a delete into a closed blob (or a restore) dropped while the index is loaded back leaves the index in memory with the old, off-loaded filter: every later dump of that blob fails ('Filter buffer offloaded, can't serialize') - silently in the background, and as an error of close() since close performs pending dumps"),
  ("C12", "sync/explicit-fsyncdata-noop", "fix: Storage::fsyncdata always", "explicit fsyncdata() issues no sync below the dirty-byte limit"),
 ]
 OPEN = [
